@@ -8,6 +8,7 @@ import (
 	"errors"
 	"mime"
 	"net/http"
+	"net/url"
 	"strings"
 
 	"github.com/go-openapi/runtime"
@@ -158,7 +159,14 @@ func c14ExecR(in []string) []string {
 	cbErr := in[14] == "1"
 
 	// --- client: the real runtime builds the request
-	rt := client.New("localhost", "/", []string{"http"})
+	// a query parameter fixed in the base path under the very name of a query-located API key: the
+	// credential the writer attaches is the caller's and wins (one case in three with such a key)
+	base := "/"
+	if spec := proto.UnL(in[8]); (len(pid)+len(hk))%3 != 1 && len(spec) == 4 && spec[0] == "apikey" && spec[2] == "query" {
+		// (only where the operation's own writer is that key: it is then certainly written)
+		base = "/?" + url.QueryEscape(spec[1]) + "=static-anonymous"
+	}
+	rt := client.New("localhost", base, []string{"http"})
 	rt.DefaultAuthentication = dfW
 	cmt := map[string]string{"0": runtime.JSONMime, "1": runtime.URLencodedFormMime, "2": runtime.MultipartFormMime}[mtype]
 	params := runtime.ClientRequestWriterFunc(func(r runtime.ClientRequest, _ strfmt.Registry) error {
